@@ -381,6 +381,9 @@ def run(cx):
     # 4. directed: amend targets that are imports only, amended in every order by the failing module
     rng = cx.sub_rng("amend")
     run_batch(cx, [cc.gen_amend_history(rng) for _ in range(cx.n(500, 8000))], "a")
+    # 5. directed: a failing module that augments AND deviates two implemented targets (one of them an import only before)
+    rng = cx.sub_rng("amend2")
+    run_batch(cx, [cc.gen_amend2_history(rng) for _ in range(cx.n(300, 8000))], "b")
     cx.sample(hs[0].spec()[:400])
     cx.exhaustive = False
 
